@@ -22,7 +22,7 @@ func zzInBinade(E int) float64 {
 func zzNextFloat(v float64) float64 { return math.Float64frombits(math.Float64bits(v) + 1) }
 
 func zzC03Linear(alpha float64, E int, gammaOffset bool) {
-	zzvBound("linear mapping kernel", "one accuracy and one binade per harness: all 2^52 significands of the binade; accuracies and binades as listed by the harness names; tolerance alpha+1e-12 for accuracy, 4 ulps for bin containment")
+	zzvBound("linear mapping kernel", "one accuracy and one binade per harness: all 2^52 significands of the binade; accuracies and binades as listed by the harness names; tolerance alpha+1e-12 for accuracy; bin containment up to 2*eps*(|E|+2+|offset|/multiplier)+4*eps relative (a few ulps of the floored quantity)")
 	zzvExactFloatsOnly()
 	zzvSolverSeconds(900)
 	var m *LinearlyInterpolatedMapping
@@ -42,8 +42,22 @@ func zzC03Linear(alpha float64, E int, gammaOffset bool) {
 	ra := m.RelativeAccuracy()
 	zzvAssert("relative-accuracy", zzvAnd(x-v <= (ra+zzTol)*v, v-x <= (ra+zzTol)*v))
 	lo, hi := m.LowerBound(i), m.LowerBound(i+1)
-	const ulps = 4 * 2.220446049250313e-16
-	zzvAssert("value-inside-its-bin-up-to-4-ulps", zzvAnd(lo*(1-ulps) <= v, v <= hi*(1+ulps)))
+	// "up to a few ulps": ulps of the QUANTITY WHOSE FLOOR IS TAKEN, t = approximateLog(v)*multiplier +
+	// offset. t carries about four roundings, i.e. an error of 2 ulps of |t| <= (|E|+2)*multiplier +
+	// |offset|; moved back to the value domain (d log2 v = dt/multiplier) this is a relative slack of
+	// 2*eps*(|E| + 2 + |offset|/multiplier), plus 4 eps for the roundings inside LowerBound itself. No
+	// float64 evaluation of floor(log) can do better, so the literal reading "4 ulps of v" (used by the
+	// first version of this check) is unsatisfiable in far binades; see DESIGN 12.3(7).
+	absE := float64(E)
+	if absE < 0 {
+		absE = -absE
+	}
+	offOverMult := m.indexOffset / m.multiplier
+	if offOverMult < 0 {
+		offOverMult = -offOverMult
+	}
+	slack := 2*2.220446049250313e-16*(absE+2+offOverMult) + 4*2.220446049250313e-16
+	zzvAssert("value-inside-its-bin-up-to-a-few-ulps-of-the-floored-quantity", zzvAnd(lo*(1-slack) <= v, v <= hi*(1+slack)))
 	// monotone: the next float never maps to a smaller index (covers the binade boundary too)
 	zzvAssert("adjacent-float-monotone", m.Index(zzNextFloat(v)) >= i)
 }
